@@ -430,6 +430,7 @@ def p_C14(ctx):
                 "empty ones); copy_within with every source rectangle x every destination corner 0..dim+1 plus non-fitting and huge "
                 "values; whole root compared; distinct by (root kind, shape, stack, op, args)")
     ctx.assumptions = ACC_ASSUME
+    algos_check(ctx, ["copywithin"])      # Layer B: the row loop with its direction choice computes Grid!CopyWithin
     shapes = [0, 11, 13, 31, 23, 32, 33] if ctx.quick else ALL_SHAPES4
     r = acc_tlc(ctx, "copies", ["copy"], shapes, kinds=("owned", "plain", "slice_m"), depth=1,
                 bigs=(BIG_MAX,) if ctx.quick else (BIG_MAX, BIG_HALF1, BIG_WRAP), workers=8 if ctx.quick else 12)
@@ -444,6 +445,7 @@ def p_C15(ctx):
                 "to 6x6 (quick) / 9x9 (thorough) - every gcd cycle structure - and through mutable views at every window of shapes "
                 "up to 4x4; whole root compared; distinct by (shape, stack, op, mid)")
     ctx.assumptions = ACC_ASSUME
+    algos_check(ctx, ["translate"])       # Layer B: the cycle-leader walk computes Grid!Translate, terminates, stays in range
     n = 6 if ctx.quick else 9
     big_shapes = [c * 10 + r for c in range(1, n + 1) for r in range(1, n + 1)] + [0]
     r = acc_tlc(ctx, "moves-owned", ["move"], big_shapes, kinds=("owned", "plain"), depth=0, workers=8)
@@ -457,6 +459,7 @@ def p_C15(ctx):
 def sort_pipeline(ctx, by):
     grp = "sortrow" if by == "row" else "sortcol"
     ctx.assumptions = ACC_ASSUME
+    algos_check(ctx, ["swaptrace"])       # Layer B: build_swap_trace realises the sorting permutation with in-range indices
     shapes = [0, 11, 13, 31, 23, 32, 33, 14, 41] if ctx.quick else ALL_SHAPES4
     r = acc_tlc(ctx, "sorts", [grp], shapes, kinds=("owned", "plain", "slice_m"), depth=1,
                 bigs=(BIG_MAX, BIG_WRAP), workers=8 if ctx.quick else 12)
@@ -822,6 +825,15 @@ def cursors_check(ctx, kinds, attribute):
     for prof, elem in [("dev", "u32"), ("release", "elem")]:
         ctx.replay(r.cases_path, attribute, profile=prof, elem=elem, label="cursor-states")
     return r
+
+
+
+def algos_check(ctx, which):
+    """Algos.tla: translate cycle-leader walk, build_swap_trace, copy_within row loop refine the Grid.tla operators."""
+    q = ctx.quick
+    cfg = cfg_text(constants={"TMax": 6 if q else 9, "PMax": 5 if q else 7, "CMax": 4 if q else 5, "Which": set(which)},
+                   invariants=["TranslateRefines", "SwapTraceRefines", "CopyWithinRefines"])
+    return ctx.tlc_run("algos", "AlgosMC", cfg, workers=8 if q else 12, xmx="8g")
 
 
 
